@@ -35,7 +35,7 @@ RULE = (
     "of the clean output, and a clean call on the same closure follows. (3) Schedules: 2-3 threads with drawn "
     "create/use programs start from cold caches under a deterministic line-granularity scheduler (sys.settrace in "
     "src/kio, token passing); the interleaving is a drawn list of <=3 preemptions (global step, target thread); "
-    "additionally ONE preemption is swept over EVERY step of fixed two/three-thread programs (warm and cold caches, two different values of one class) exhaustively, and EVERY PAIR of preemptions (park thread 0 at k1, park thread 1 at k2, resume 0, then 1) is swept over a warm two-thread program whose values hold multi-item arrays. (4) Orders: in 4 (quick) / 14 (thorough) fresh processes the readers and writers of ALL 1629 classes are created and used in a different order (forward, reverse, seeded shuffles); per class up to 12 fixed calls (decode of a populated, a zero, a conforming explicit-default/explicit-null and up to three null-in-non-nullable encodings; encode of the corresponding instances) must have the same outcome (value or exception type) in every order; a difference is bisected to the earlier class that causes it. (5) Repetition: for 32 classes one cached writer and one cached reader are called 20000 (quick) / 300000 (thorough) times each on a populated value; every result must equal the reference encoding / the value; and for 6 classes 70000 (quick) / 600000 (thorough) DISTINCT values (every string, bytes, uuid and wide integer unique) go through one reader/writer pair, each must re-encode to its reference bytes, and the first 64 are decoded again afterwards. Non-trivial = history with a failed call "
+    "additionally ONE preemption is swept over EVERY step of fixed two/three-thread programs (warm and cold caches, two different values of one class) exhaustively, and EVERY PAIR of preemptions (park thread 0 at k1, park thread 1 at k2, resume 0, then 1) is swept over a warm two-thread program whose values hold multi-item arrays. Additionally one preemption is swept over every step of thread 0 working on class X while thread 1 works on a DIFFERENT class Y (warm encode and decode), for consecutive pairs of a greedy cover of small classes that together contain every field kind (plain, array, tagged), a nullable struct and nested struct arrays. (4) Orders: in 4 (quick) / 14 (thorough) fresh processes the readers and writers of ALL 1629 classes are created and used in a different order (forward, reverse, seeded shuffles); per class up to 12 fixed calls (decode of a populated, a zero, a conforming explicit-default/explicit-null and up to three null-in-non-nullable encodings; encode of the corresponding instances) must have the same outcome (value or exception type) in every order; a difference is bisected to the earlier class that causes it. (5) Repetition: for 32 classes one cached writer and one cached reader are called 20000 (quick) / 300000 (thorough) times each on a populated value; every result must equal the reference encoding / the value; and for 6 classes 70000 (quick) / 600000 (thorough) DISTINCT values (every string, bytes, uuid and wide integer unique) go through one reader/writer pair, each must re-encode to its reference bytes, and the first 64 are decoded again afterwards. Non-trivial = history with a failed call "
     "followed by a successful call on the same closure / fault k strictly inside the call / schedule with >=1 "
     "preemption landing inside entity_reader/entity_writer construction or read_entity/write_entity; distinct by hash."
 )
@@ -902,6 +902,70 @@ def sweep_tasks(ctx: Ctx, trees_json, shards: int) -> list:
     return tasks
 
 
+# --------------------------------------------------------------------------- (3c) X-vs-Y sweeps over classes covering every field kind
+
+
+def kind_cover_classes() -> list[str]:
+    """A small set of small classes that together contain every primitive kind (plain, in arrays, tagged), a nullable
+    struct and a nested struct array: greedy set cover over the whole schema, smallest classes first."""
+
+    def features(cd: D.ClassDesc, depth: int = 0) -> set:
+        out = set()
+        for f in cd.fields:
+            out.add((f.kind, f.array, f.tag is not None))
+            if f.kind == "struct":
+                if f.nullable and not f.array:
+                    out.add(("nullable-struct", False, False))
+                if depth < 2:
+                    out |= features(f.struct, depth + 1)
+        return out
+
+    def size(cd: D.ClassDesc, depth: int = 0) -> int:
+        return sum(1 + (size(f.struct, depth + 1) if f.kind == "struct" and depth < 3 else 0) for f in cd.fields)
+
+    cands = []
+    for cls in D.all_classes():
+        cd = D.describe(cls)
+        if cd.cls.__type__.name in ("request", "response", "header", "data") and 1 <= size(cd) <= 14:
+            cands.append((size(cd), cd.path, features(cd)))
+    cands.sort()
+    uncovered = set().union(*(f for _s, _p, f in cands)) if cands else set()
+    picked = []
+    while uncovered:
+        best = max(cands, key=lambda c: (len(c[2] & uncovered), -c[0], c[1]))
+        gain = best[2] & uncovered
+        if not gain:
+            break
+        picked.append(best[1])
+        uncovered -= gain
+    return picked
+
+
+def kind_pair_tasks(ctx: Ctx, shards: int) -> list:
+    """One preemption swept over EVERY step of thread 0 encoding (decoding) a value of class X while thread 1 encodes
+    (decodes) a value of a DIFFERENT class Y, warm caches, for consecutive pairs (both orders) of the kind-cover list."""
+    cover = kind_cover_classes()
+    if not ctx.quick:
+        cover = cover + cover[::2]  # a second, different pairing
+    tasks = []
+    for i, x in enumerate(cover):
+        y = cover[(i + 1) % len(cover)]
+        if x == y:
+            continue
+        for a, b in ((x, y), (y, x)):
+            trees_json = [(a, tree_to_json(populated_tree(D.describe(D.resolve(a)), 2, 0))),
+                          (b, tree_to_json(populated_tree(D.describe(D.resolve(b)), 2, 1)))]
+            items = _schedule_items(trees_json)
+            for op in ("enc", "dec"):
+                programs = [[(op, 0)], [(op, 1)]]
+                _f, dry = run_schedule(items, programs, [], cold=False)
+                tasks.append((f"kind-pair-{op}:{a.split(':')[1]}|{b.split(':')[1]}", False, programs, trees_json, 0, dry.steps))
+    clear_caches()
+    # balance: the tasks are small; group them round-robin into `shards` lists
+    return tasks
+
+
+
 # --------------------------------------------------------------------------- (4) creation/use orders in fresh processes
 
 
@@ -1169,6 +1233,10 @@ def run(ctx: Ctx) -> Report:
     for rep in pool_map(_sweep_worker, sweep_tasks(ctx, items, shards)):
         total.merge(rep)
     for rep in pool_map(_pair_sweep_worker, pair_sweep_tasks(ctx, shards)):
+        total.merge(rep)
+    kp = kind_pair_tasks(ctx, shards)
+    total.extra["kind_cover_classes"] = kind_cover_classes()
+    for rep in pool_map(_sweep_worker, kp):
         total.merge(rep)
     # (4) creation/use orders, each in a fresh process
     order_stage(ctx, total)
